@@ -811,7 +811,11 @@ def run_out(case):
         try:
             text = src.serialize(format=fmt)
         except Exception as e:
+            # "its XML and JSON outputs are well-formed" is about outputs that exist: a serializer that raises on a graph of
+            # the quantifier's kind gives none (no rdflib serializer refuses any of these graphs on the clean tree)
             stats["serialize_refused_" + fmt] = stats.get("serialize_refused_" + fmt, 0) + 1
+            tag = "json-no-output" if fmt == "json-ld" else "xml-no-output"
+            viol.append(f"{tag}: serialize(format={fmt!r}) raises {_exc(e)}: {str(e)[:120]!r} instead of writing the graph")
             continue
         stats["outputs_" + fmt] = stats.get("outputs_" + fmt, 0) + 1
         try:
